@@ -127,7 +127,7 @@ def _sim_history(c, K, recount=True, coherence=False):
         for k in range(K):
             t_before = _dt.datetime.utcnow()
             n_tr_log = len(rec.trades)
-            act = c.choose("action%d" % k, ["place-new-trade", "place-same-trade", "place-in-with-trade", "process-packages", "fill-all", "fill-first", "cancel-all",
+            act = c.choose("action%d" % k, ["place-new-trade", "place-same-trade", "place-in-with-trade", "process-packages", "fill-all", "fill-first", "fill-last", "cancel-all",
                                             "suspend-lapse", "remove-runner"] + (["replace-all"] if coherence else []))
             c.tag("a%d" % k, act)
             with c.guard("step%d:%s" % (k, act)):
@@ -160,8 +160,9 @@ def _sim_history(c, K, recount=True, coherence=False):
                 elif act == "process-packages":
                     while fl.handler_queue:
                         client.execution.handler(fl.handler_queue.pop(0))
-                elif act in ("fill-all", "fill-first"):
-                    for o in list(market.blotter.live_orders)[:1 if act == "fill-first" else None]:
+                elif act in ("fill-all", "fill-first", "fill-last"):
+                    lv = list(market.blotter.live_orders)
+                    for o in (lv[:1] if act == "fill-first" else lv[-1:] if act == "fill-last" else lv):
                         if o.status in (S.EXECUTABLE, S.CANCELLING, S.UPDATING, S.REPLACING):
                             sim = o.simulated
                             sim.matched = sim.matched + [[cm.T0_MS, o.order_type.price, sim.size_remaining]]
